@@ -193,3 +193,55 @@ Example C01_script_side_conditions :
   (let t := TScript [] [PStatic (bs "x=""<"); PDyn (bs "/script "); PStatic (bs """")] in
    JsLex.clean (bs "/script ") = true /\ wf t = false /\ tok (render t) <> expected t).
 Proof. repeat split; try reflexivity; vm_compute; discriminate. Qed.
+
+(* ---------- which writes the generated code performs around dynamic values: the WHOLE generator model
+   (model/Gen.v, tied to generator.Generate byte for byte on every run) ---------- *)
+From V Require Import model.Ast model.Gen proofs.GenAddsProof proofs.GenFreshProof proofs.GenSinkProof.
+
+(* gen_sinks_escaped.  For every file: the generator's run is the replay of a list l of write operations
+   (WriteIndent / Write / WriteStringLiteral of generator text, writes of user expressions) - same writer state, hence
+   same code and literals, same source-map additions - and l is Sunk: a WriteIndent that starts with the statement
+   `_, templ_7745c5c3_Err = templ_7745c5c3_Buffer.WriteString(` occurs only inside a sink group, in which the written
+   variable was declared from the user expression through the matching function:
+     text, default attribute: templ.JoinStringErrs(e)                      then WriteString(templ.EscapeString(v))
+     URL attribute:           var v templ.SafeURL = e                      then WriteString(templ.EscapeString(string(v)))
+     on*, hx-on: attribute:   var v templ.ComponentScript = e              then WriteString(v.Call)
+     style attribute:         templruntime.SanitizeStyleAttributeValues(e) then WriteString(v)
+     script part:             templruntime.ScriptContentInside/OutsideStringLiteral(e) then WriteString(v)
+   and an attribute sink stands between the literals ` name=` `\"` and `\"` within the operations of its element
+   (constructors S_expr, S_elem of Sunk; the kind is attr_kind elem name). *)
+Theorem C01_gen_sinks_escaped : forall (fn : bytes) (f : file),
+  exists l : list op,
+    same (gen_state fn f) (replay l (g_init fn)) /\
+    Sunk None 0 (Gen.vid (gen_state fn f)) l /\
+    (forall (lvl : nat) (s : bytes), In (OI lvl s) l -> is_writer s = true ->
+       exists pre grp post : list op, l = pre ++ grp ++ post /\ sink grp /\ In (OI lvl s) grp).
+Proof. exact gen_sinks_escaped. Qed.
+Print Assumptions C01_gen_sinks_escaped.
+
+(* each string expression in text position (not blank) is written as exactly the text sink group, with a new variable *)
+Theorem C01_text_sink_occurrence : forall (f lvl : nat) (e : expr) (t : trailing) (next : option node) (g : Gen.gst),
+  Gen.all_ws (e_val e) = false ->
+  Gen.write_node (S f) lvl (NStr e t) next g =
+  (match t with SpNone => Gen.skip | _ => if Gen.inline_or_text next then Gen.wl [x20] else Gen.skip end)
+    (replay (g_text lvl (vname (S (Gen.vid g))) (Gen.fname g) (OE e) e) (Gen.set_vid (S (Gen.vid g)) g)).
+Proof. exact text_occurrence. Qed.
+Print Assumptions C01_text_sink_occurrence.
+
+(* each expression attribute name={ e } of element elem is written as: literal ` name=`, literal `\"`, the sink group
+   of its kind with a new variable, literal `\"` *)
+Theorem C01_attr_sink_occurrence : forall (f lvl : nat) (elem n : bytes) (e : expr) (g : Gen.gst),
+  Gen.write_attrs (S f) lvl elem [AExpr n e] g =
+  replay ([OL ([x20] ++ Gen.hesc n ++ bs "="); OL (bs "\""")] ++
+          g_attr (attr_kind elem n) lvl (vname (S (Gen.vid g))) (Gen.fname g) e ++ [OL (bs "\""")])
+         (Gen.set_vid (S (Gen.vid g)) g).
+Proof. exact attr_occurrence. Qed.
+Print Assumptions C01_attr_sink_occurrence.
+
+(* non-vacuity: Sunk is not trivially true - a bare Buffer.WriteString(x) is rejected in every context; the kinds *)
+Example C01_ex_bare_write_not_sunk : forall (c : option bytes) (a b : nat), ~ Sunk c a b [OI 0 (wpre ++ bs "x)")].
+Proof. exact bare_write_not_sunk. Qed.
+Example C01_ex_kinds :
+  attr_kind (bs "a") (bs "href") = KUrl /\ attr_kind (bs "A") (bs "HREF") = KUrl /\ attr_kind (bs "form") (bs "action") = KUrl /\
+  attr_kind (bs "div") (bs "href") = KDefault /\ attr_kind (bs "button") (bs "onclick") = KOn /\ attr_kind (bs "p") (bs "style") = KStyle.
+Proof. exact ex_kinds. Qed.
